@@ -57,3 +57,22 @@ VARIANTS = [
         "        if None not in (max_x_position, max_y_position) and None not in (max_distance, min_distance):",
         "        if max_x_position is not None and max_y_position is not None and max_distance is not None and min_distance is not None:")]),
 ]
+
+# seeded (wave 5): the all-numeric check moved behind an early return of the broadcast case
+VARIANTS += [
+    dict(name="seed-flat-broadcast-unchecked", kind="break", rule="C15-normaliser", edits=[("common/threshold.py",
+        """    if isinstance(threshold[0], Real):
+        if any([not isinstance(t, Real) for t in threshold]):
+            raise ThresholdError(f"Type of all elements must be same, but got {threshold}")
+        return [[t] * num_elements for t in threshold] if len(threshold) != num_elements else [threshold]
+""", """    if isinstance(threshold[0], Real):
+        if len(threshold) != num_elements:
+            return [[t] * num_elements for t in threshold]
+        if any([not isinstance(t, Real) for t in threshold]):
+            raise ThresholdError(f"Type of all elements must be same, but got {threshold}")
+        return [threshold]
+""")]),
+    dict(name="flat-check-then-split-returns", kind="benign", edits=[("common/threshold.py",
+        "        return [[t] * num_elements for t in threshold] if len(threshold) != num_elements else [threshold]\n",
+        "        if len(threshold) != num_elements:\n            return [[t] * num_elements for t in threshold]\n        return [threshold]\n")]),
+]
